@@ -28,7 +28,8 @@ LEVEL_TEXT = ('Props.C18.inverse_complete: for every list of parsed rows (any nu
 LEVEL_NOTE = ('Trusted: Lean kernel; axioms propext, Classical.choice, Quot.sound only; I/O, gzip and codecs are exercised, not modelled.')
 
 WORK = os.path.join(os.path.dirname(os.path.dirname(os.path.dirname(os.path.abspath(__file__)))), 'work')
-PATHS = ['usr/bin/foo', 'usr/share/doc/a b/c', 'etc/x.conf', 'usr/lib/libé.so', 'a', 'usr/bin/foo', 'opt/with  two', 'FILE', 'x/LOCATION y', 'tab\tin']
+PATHS = ['usr/bin/foo', 'usr/share/doc/a b/c', 'etc/x.conf', 'usr/lib/libé.so', 'a', 'usr/bin/foo', 'opt/with  two', 'FILE', 'x/LOCATION y', 'tab\tin',
+         'usr/share/notes/copied\u2028from web.txt', 'ff\x0cin path', 'nel\x85x', 'vt\x0bx', 'fs\x1cx', 'nb\xa0sp y', 'ideo\u3000graphic']
 PKGS = ['foo', 'libc6', 'python3-x', 'g++', 'x.y']
 QUALS = [[], [], ['utils'], ['net'], ['main', 'net'], ['non-free', 'x11']]
 
